@@ -45,6 +45,8 @@ def judge(w, scn, res):
         hazards.append('publish-lost')
     if any(e.get('ev') == 'kill' for e in w.sim.log):
         hazards.append('peer-restarted')
+    if any(e.get('ev') == 'fault' and e.get('kind') == 'clean_restart' for e in w.clog):
+        hazards.append('peer-clean-restart')
     if any(e.get('ev') == 'return' and e.get('what') == 'none' for e in w.clog) and scn['family'].startswith(('tee_rejoin', 'diamond')):
         hazards.append('skip-inside-rejoin')
     for h in hazards:
@@ -101,7 +103,44 @@ def run_shard(ctx):
             res.sample({'family': scn['family'], 'nodes': [(n_['id'], n_['config'].get('sources'), n_['beh']) for n_ in scn['nodes']],
                         'faults': scn.get('faults'), 'loss': scn.get('loss'),
                         'sink_inputs_excerpt': [{t: (v.get('o'), v.get('seq')) for t, v in e['ins'].items()} for e in w.process_log() if e['ins']][:6]})
+    realnet_pass(ctx, res)
     return res
+
+
+RELEVANT = lambda mech: mech not in ('duplicate', 'reorder', 'ephemeral-reorder', 'content-altered')
+
+
+def realnet_pass(ctx, res):
+    """Engine B: sampled scenarios of the same generator on real pyzmq, one process per filter, real SIGKILL; the same
+    offline checkers (time-independent safety predicates only) over the merged per-process logs."""
+    from ..realnet import orch
+    for k in range(1 if ctx.quick else 10):
+        rng = ctx.rng('realnet', k)
+        scn = scenarios.gen_general(rng, rng.randrange(1 << 30), faults=('kill', 'late'))
+        scn.pop('loss', None)
+        try:
+            w = orch.run_real(scn, max_wall_s=12 if scn.get('faults') else 40)
+        except Exception as e:
+            res.inconclusive.append(f'realnet scenario crashed the harness: {type(e).__name__}: {e}')
+            continue
+        res.count('realnet_scenarios')
+        res.evaluations += 1
+        if not w.process_log():
+            res.count('realnet_scenarios_without_deliveries')
+            res.notes.append('realnet stderr: ' + w.stderr[-200:])
+            continue
+        topo = scenarios.Topo(scn)
+        r2 = common.Result()
+        bad = monitors.check_sets(w, topo, r2) + monitors.check_order(w, topo, r2)
+        res.count('realnet_sets_checked', r2.counters.get('sets_checked', 0))
+        res.count('realnet_deliveries_ordered', r2.counters.get('deliveries_ordered', 0))
+        res.count('realnet_real_sigkills', len(w.kills))
+        res.nontrivial(f'realnet|{scn["family"]}|{len(w.kills)}|{scn["seed"]}')
+        seen = set()
+        for mech, msg in bad:
+            if mech not in seen and RELEVANT(mech):
+                seen.add(mech)
+                res.violation(('' if mech.startswith(('rejoin-mixes', 'set-mixes')) else 'realnet:') + mech, f'[real pyzmq, real processes] {msg}; family={scn["family"]} seed={scn["seed"]}', {'realnet': True, **scn})
 
 
 def conclusive(agg, tier):
@@ -116,6 +155,13 @@ def conclusive(agg, tier):
 def replay(spec):
     common.quiet_logging()
     res = common.Result()
+    if spec.get('realnet'):
+        from ..realnet import orch
+        w = orch.run_real(spec, max_wall_s=15)
+        topo = scenarios.Topo(spec)
+        bad = [b for b in monitors.check_sets(w, topo, res) + monitors.check_order(w, topo, res) if RELEVANT(b[0])]
+        print('real-socket run (not deterministic):', len(w.process_log()), 'deliveries;', bad[:5] or 'no violation this time')
+        return 1 if bad else 0
     w, bad = run_one(spec, res)
     print('family', spec['family'], 'seed', spec['seed'], 'faults', spec.get('faults'), 'loss', spec.get('loss'))
     for e in w.process_log():
